@@ -71,14 +71,7 @@ mod v_storage_packet {
         if enq {
             let size = any_le(PC);
             let h: u8 = kani::any();
-            let via_with: bool = kani::any();
-            if via_with {
-                let take = any_le(PC);
-                kani::assume(take <= size);
-                if let Ok(n) = pb.enqueue_with_infallible(size, h, |b| { fill(&mut b[..take], h); take }) {
-                    g.push(h, n);
-                }
-            } else if let Ok(buf) = pb.enqueue(size, h) {
+            if let Ok(buf) = pb.enqueue(size, h) {
                 fill(buf, h);
                 g.push(h, size);
             }
@@ -116,14 +109,25 @@ mod v_storage_packet {
             let pc = any_le(PC);
             let mut $pb = PacketBuffer::new(&mut meta[..mc], &mut pay[..pc]);
             let mut $g = Ghost { q: [GE; 4], popped: false };
-            prefix_step(&mut $pb, &mut $g);
+            // start: an EMPTY buffer whose two read pointers are anywhere.  Reachable through the API:
+            // m cycles of enqueue(0)/dequeue move the metadata pointer, one enqueue(p)/dequeue moves the payload pointer.
+            {
+                let p0: usize = kani::any();
+                let m0: usize = kani::any();
+                kani::assume(if pc == 0 { p0 == 0 } else { p0 < pc });
+                kani::assume(if mc == 0 { m0 == 0 } else { m0 < mc });
+                $pb.payload_ring.verif_set(p0, 0);
+                $pb.metadata_ring.verif_set(m0, 0);
+                $g.popped = p0 != 0;
+            }
+            // then 3 symbolic public enqueue/dequeue steps
             prefix_step(&mut $pb, &mut $g);
             prefix_step(&mut $pb, &mut $g);
             prefix_step(&mut $pb, &mut $g);
         };
     }
 
-    // @harness props=C14,C09 tier=q to=900 mem=8 unwind=10 opts=nomem covers=3 funcs=PacketBuffer::enqueue;PacketBuffer::dequeue bounds=metadata_slots_0..=3;_payload_capacity_0..=8;_state_=_4_symbolic_public_enqueue/dequeue_steps
+    // @harness props=C14,C09 tier=q to=900 mem=8 unwind=10 opts=nomem covers=3 funcs=PacketBuffer::enqueue;PacketBuffer::dequeue bounds=metadata_slots_0..=3;_payload_capacity_0..=8;_state_=_empty_buffer_at_any_read_pointers_+_3_symbolic_public_enqueue/dequeue_steps
     #[kani::proof]
     pub(crate) fn pb_enqueue() {
         setup!(pb, g);
@@ -151,7 +155,7 @@ mod v_storage_packet {
         drain_equals(&mut pb, &g);
     }
 
-    // @harness props=C14,C09 tier=q to=900 mem=8 unwind=10 opts=nomem covers=3 funcs=PacketBuffer::enqueue_with_infallible;PacketBuffer::dequeue bounds=metadata_slots_0..=3;_payload_capacity_0..=8;_state_=_4_symbolic_public_steps
+    // @harness props=C14,C09 tier=q to=900 mem=8 unwind=10 opts=nomem covers=3 funcs=PacketBuffer::enqueue_with_infallible;PacketBuffer::dequeue bounds=metadata_slots_0..=3;_payload_capacity_0..=8;_state_=_empty_buffer_at_any_read_pointers_+_3_symbolic_public_steps
     #[kani::proof]
     pub(crate) fn pb_enqueue_with_infallible() {
         setup!(pb, g);
@@ -182,7 +186,7 @@ mod v_storage_packet {
         drain_equals(&mut pb, &g);
     }
 
-    // @harness props=C14,C09 tier=q to=900 mem=8 unwind=10 opts=nomem covers=3 funcs=PacketBuffer::dequeue_with;PacketBuffer::peek;PacketBuffer::dequeue bounds=metadata_slots_0..=3;_payload_capacity_0..=8;_state_=_4_symbolic_public_steps
+    // @harness props=C14,C09 tier=q to=900 mem=8 unwind=10 opts=nomem covers=3 funcs=PacketBuffer::dequeue_with;PacketBuffer::peek;PacketBuffer::dequeue bounds=metadata_slots_0..=3;_payload_capacity_0..=8;_state_=_empty_buffer_at_any_read_pointers_+_3_symbolic_public_steps
     #[kani::proof]
     pub(crate) fn pb_dequeue_with_and_peek() {
         setup!(pb, g);
